@@ -109,12 +109,15 @@ func (c *Cluster) NodeTaint(name string, on bool) error {
 }
 
 // NodeOverride sets the resource override annotation of container main for EDS ns/name (class none removes it).
-func (c *Cluster) NodeOverride(node, ns, name, class string) error {
+func (c *Cluster) NodeOverride(node, ns, name, class, container string) error {
 	n, err := c.getNode(node)
 	if err != nil {
 		return err
 	}
-	key := fmt.Sprintf(edsv1.ExtendedDaemonSetRessourceNodeAnnotationKey, ns, name, MainContainer)
+	if container == "" {
+		container = MainContainer
+	}
+	key := fmt.Sprintf(edsv1.ExtendedDaemonSetRessourceNodeAnnotationKey, ns, name, container)
 	if n.Annotations == nil {
 		n.Annotations = map[string]string{}
 	}
@@ -371,6 +374,12 @@ func (c *Cluster) ForeignPod(node, kind, ns, edsName, dsName string) error {
 	case "otherns":
 		p = &corev1.Pod{ObjectMeta: metav1.ObjectMeta{Namespace: "other", GenerateName: "otherns-", Labels: map[string]string{"app": "agent", edsv1.ExtendedDaemonSetNameLabelKey: edsName}},
 			Spec: corev1.PodSpec{NodeName: node, Containers: []corev1.Container{{Name: MainContainer, Image: "x"}}}}
+	case "ds2":
+		// a pod of ANOTHER DaemonSet whose labels match the old DaemonSet's selector
+		t := true
+		p = &corev1.Pod{ObjectMeta: metav1.ObjectMeta{Namespace: ns, GenerateName: "other-ds-", Labels: map[string]string{"app": "agent", "ds": dsName},
+			OwnerReferences: []metav1.OwnerReference{{APIVersion: "apps/v1", Kind: "DaemonSet", Name: "other-ds", UID: "ds2-uid", Controller: &t}}},
+			Spec: corev1.PodSpec{NodeName: node, Containers: []corev1.Container{{Name: MainContainer, Image: "other"}}}}
 	case "ds":
 		t := true
 		p = &corev1.Pod{ObjectMeta: metav1.ObjectMeta{Namespace: ns, GenerateName: dsName + "-", Labels: map[string]string{"app": "agent", "ds": dsName},
